@@ -133,7 +133,8 @@ pub fn dict() -> &'static Dict {
             }
         }
         // neighbours of every literal: off-by-one guards live next to the constant
-        let mut all: Vec<u64> = vec![];
+        // `u16::MAX` and friends are spelled as paths, not as literals
+        let mut all: Vec<u64> = vec![127, 128, 255, 256, 32_767, 32_768, 65_535, 65_536, 0x7fff_ffff, 0x8000_0000, 0xffff_ffff, 0x1_0000_0000];
         for n in &nums {
             all.push(*n);
             all.push(n.wrapping_add(1));
